@@ -18,8 +18,13 @@ use std::sync::Arc;
 
 pub fn set_node_env(dir: &str) {
     std::env::set_var("RNACOS_DATA_DIR", dir);
-    std::env::set_var("RNACOS_RAFT_AUTO_INIT", "false");
-    std::env::set_var("RNACOS_RAFT_NODE_ID", "9");
+    // RNVERIF_LEADER=1: a real single-member Raft group (this node elects itself and serves writes)
+    let leader = std::env::var("RNVERIF_LEADER").map(|v| v == "1").unwrap_or(false);
+    std::env::set_var("RNACOS_RAFT_AUTO_INIT", if leader { "true" } else { "false" });
+    std::env::set_var("RNACOS_RAFT_NODE_ID", if leader { "1" } else { "9" });
+    if leader {
+        std::env::set_var("RNACOS_RAFT_NODE_ADDR", "127.0.0.1:1");
+    }
     std::env::set_var("RNACOS_HTTP_PORT", "0");
     std::env::set_var("RNACOS_ENABLE_METRICS", "false");
     std::env::remove_var("RNACOS_RAFT_JOIN_ADDR");
@@ -209,6 +214,46 @@ pub async fn exec(app: &Arc<AppShareData>, op: &Value) -> Value {
                 let mut after: Vec<u64> = m.members_after_consensus.clone().unwrap_or_default().into_iter().collect();
                 after.sort();
                 Ok(json!({"res":"ok","members":members,"after":after}))
+            }
+            "seq_next" => {
+                // `n` concurrent GetNextId requests on the real SequenceManager (needs a leader node)
+                use rnacos::sequence::{SequenceRequest, SequenceResult};
+                let key = Arc::new(op["key"].as_str().unwrap().to_string());
+                let n = op["n"].as_u64().unwrap_or(1);
+                let futs: Vec<_> = (0..n).map(|_| app.sequence_manager.send(SequenceRequest::GetNextId(key.clone()))).collect();
+                let rs = futures_util::future::join_all(futs).await;
+                let mut ids = vec![];
+                let mut errs = 0;
+                for r in rs {
+                    match r {
+                        Ok(Ok(SequenceResult::NextId(v))) => ids.push(v),
+                        _ => errs += 1,
+                    }
+                }
+                Ok(json!({"res":"ok","ids":ids,"errors":errs}))
+            }
+            "cfg_publish" => {
+                // a config publish as the HTTP / gRPC handlers do it on the leader: ConfigAsyncCmd::Add
+                use rnacos::config::core::{ConfigAsyncCmd, ConfigKey};
+                let key = ConfigKey::new(op["data_id"].as_str().unwrap(), op["group"].as_str().unwrap_or("g"), op["tenant"].as_str().unwrap_or(""));
+                let r = app.config_addr.send(ConfigAsyncCmd::Add { key, value: Arc::new(op["value"].as_str().unwrap().to_string()), op_user: None, config_type: None, desc: None }).await;
+                match r {
+                    Ok(Ok(_)) => Ok(json!({"res":"ok"})),
+                    Ok(Err(e)) => Ok(json!({"res":"error","err":e.to_string()})),
+                    Err(e) => Ok(json!({"res":"error","err":e.to_string()})),
+                }
+            }
+            "wait_leader" => {
+                let deadline = std::time::Instant::now() + std::time::Duration::from_millis(op["ms"].as_u64().unwrap_or(15000));
+                loop {
+                    if app.raft.current_leader().await == Some(app.sys_config.raft_node_id) {
+                        break Ok(json!({"res":"ok"}));
+                    }
+                    if std::time::Instant::now() > deadline {
+                        break Ok(json!({"res":"timeout"}));
+                    }
+                    tokio::time::sleep(std::time::Duration::from_millis(50)).await;
+                }
             }
             "sleep" => {
                 tokio::time::sleep(std::time::Duration::from_millis(op["ms"].as_u64().unwrap_or(100))).await;
